@@ -27,8 +27,11 @@ def crafted(z, pair):
     filler = bytes((i * 11 + 3) % 251 for i in range(5000))
     far = footer + filler + zoolib.le(len(footer) + len(filler), 4) + b"abcd"     # a length field pointing far back, no magic
     far_magic = footer + filler + zoolib.le(len(footer) + len(filler), 4)          # same, and the next bytes in the file decide
-    for tag, payload in (("embedded-footer-no-magic", trailer), ("embedded-complete-trailer", trailer + b"PAR1"),
-                         ("embedded-footer-far-length-no-magic", far), ("embedded-footer-far-length", far_magic)):
+    # near-miss magics: a reader that compares only part of the magic (a prefix, case-insensitively, ...)
+    # accepts the prefix ending there; the real magic is exactly "PAR1"
+    near = [("embedded-trailer-near-magic-" + m.hex(), trailer + m) for m in (b"PAR2", b"PART", b"PAR\x00", b"par1", b"PARE", b"\x00AR1", b"1RAP")]
+    for tag, payload in [("embedded-footer-no-magic", trailer), ("embedded-complete-trailer", trailer + b"PAR1"),
+                         ("embedded-footer-far-length-no-magic", far), ("embedded-footer-far-length", far_magic)] + near:
         rec = ("struct", [("leaf", zoolib.le(7, 8)), ("some", ("leaf", payload)), ("list", [])])
         rec2 = ("struct", [("leaf", zoolib.le(8, 8)), ("nil",), ("list", [("leaf", zoolib.le(1, 4))])])
         out.append(filelevel.Case(z, 2, 0, [("a", rec), ("a", rec2), ("w",), ("c",)], tag))
